@@ -44,6 +44,17 @@ fn ext_mal<F: Field>(out: &mut Out, rng: &mut Rng, tower: &str, th: bool) {
 /// would the unchecked deserialisation succeed?  (then the checked one runs the subgroup test)
 fn parses<T: Rep>(b: &[u8], c: Compress) -> bool { T::deserialize_with_mode(b, c, Validate::No).is_ok() }
 
+/// shipped curves: the unchecked mode always; the checked modes when they are cheap (the input is
+/// rejected before the subgroup test) or while the budget of scalar multiplications lasts
+fn emit_ship<A: Rep, Pj: Rep>(out: &mut Out, cd: &str, b: &[u8], c: Compress, want_proj: bool) {
+    op_mpde::<A>(out, cd, b, c, Validate::No);
+    let cheap = match A::deserialize_with_mode(b, c, Validate::No) { Ok(p) => p.trivial(), Err(_) => true };
+    if cheap || spend(1) { op_mpde::<A>(out, cd, b, c, Validate::Yes); }
+    if want_proj {
+        if cheap || spend(1) { op_mpde::<Pj>(out, cd, b, c, Validate::Yes); }
+        op_mpde::<Pj>(out, cd, b, c, Validate::No);
+    }
+}
 /// emit a string for both validation modes and both representations
 fn emit_all<A: Rep, Pj: Rep>(out: &mut Out, cd: &str, b: &[u8], c: Compress) {
     op_mpde::<A>(out, cd, b, c, Validate::Yes);
@@ -181,12 +192,14 @@ fn toy_te_mal<P: te::TECurveConfig>(out: &mut Out, rng: &mut Rng, name: &str, or
     }
 }
 
-fn ship_sw_mal<P: sw::SWCurveConfig>(out: &mut Out, rng: &mut Rng, n: usize, th: bool, tw: &str, h1: Option<&str>) {
+fn ship_sw_mal<P: sw::SWCurveConfig>(out: &mut Out, rng: &mut Rng, n: usize, th: bool, tw: &str, h1: Option<&str>, budget: i64, thin: usize) {
+    set_budget(if th { i64::MAX } else { budget / 3 });
     let fd = fdesc::<P::BaseField>(tw);
     let cd = match h1 { Some(h) => sw_desc_with::<P>(&fd, h), None => sw_desc::<P>(&fd) };
     let (sub, other) = sw_sample::<P>(rng, n);
     sw_check_ops::<P>(out, &cd, &sub[..sub.len().min(if th { 6 } else { 3 })], &other[..other.len().min(if th { 3 } else { 1 })], rand_field::<P::BaseField>(rng), if th { 4 } else { 1 });
     for c in [Compress::Yes, Compress::No] {
+        if !th { set_budget(budget / 3); }
         let (size, slots) = slots_sw::<P::BaseField>(c);
         // valid encodings: identity, subgroup points, curve points outside the subgroup / with small-order components
         let mut valid: Vec<Vec<u8>> = Vec::new();
@@ -208,18 +221,23 @@ fn ship_sw_mal<P: sw::SWCurveConfig>(out: &mut Out, rng: &mut Rng, n: usize, th:
             let q = sw::Affine::<P>::new_unchecked(sub[1].x, sub[1].y + <P::BaseField as ark_ff::One>::one());
             core.push(ser_vec(&q, c));
         }
-        let every = if th { 4 } else { 16 };
-        for (i, b) in core.iter().enumerate() {
-            if i < 8 || th { emit_all::<sw::Affine<P>, sw::Projective<P>>(out, &cd, b, c); } else { emit_budget::<sw::Affine<P>, sw::Projective<P>>(out, &cd, b, c, i, 3); }
+        if th {
+            for b in core.iter() { emit_all::<sw::Affine<P>, sw::Projective<P>>(out, &cd, b, c); }
+            for (i, b) in bulk.iter().enumerate() { emit_budget::<sw::Affine<P>, sw::Projective<P>>(out, &cd, b, c, i, 4); }
+        } else {
+            for (i, b) in core.iter().enumerate() { emit_ship::<sw::Affine<P>, sw::Projective<P>>(out, &cd, b, c, i % 4 == 0); }
+            // quick tier: every `thin`-th string of the bulk family (each costs the driver a square root)
+            for (i, b) in bulk.iter().step_by(thin).enumerate() { emit_ship::<sw::Affine<P>, sw::Projective<P>>(out, &cd, b, c, i % 16 == 0); }
         }
-        for (i, b) in bulk.iter().enumerate() { emit_budget::<sw::Affine<P>, sw::Projective<P>>(out, &cd, b, c, i, every); }
     }
 }
-fn ship_te_mal<P: te::TECurveConfig>(out: &mut Out, rng: &mut Rng, n: usize, th: bool) {
+fn ship_te_mal<P: te::TECurveConfig>(out: &mut Out, rng: &mut Rng, n: usize, th: bool, budget: i64) {
+    set_budget(if th { i64::MAX } else { budget / 3 });
     let cd = te_desc::<P>(&fdesc::<P::BaseField>("_"));
     let (sub, other) = te_sample::<P>(rng, n);
     te_check_ops::<P>(out, &cd, &sub[..sub.len().min(if th { 6 } else { 3 })], &other[..other.len().min(if th { 3 } else { 1 })], rand_field::<P::BaseField>(rng), if th { 4 } else { 1 });
     for c in [Compress::Yes, Compress::No] {
+        if !th { set_budget(budget / 3); }
         let (size, slots) = slots_te::<P::BaseField>(c);
         let mut valid: Vec<Vec<u8>> = Vec::new();
         for (i, p) in sub.iter().enumerate() { valid.push(ser_vec(p, c)); if i < other.len() { valid.push(ser_vec(&other[i], c)); } }
@@ -233,11 +251,13 @@ fn ship_te_mal<P: te::TECurveConfig>(out: &mut Out, rng: &mut Rng, n: usize, th:
             w[off..].copy_from_slice(&yb);
             core.push(w);
         }
-        let every = if th { 4 } else { 16 };
-        for (i, b) in core.iter().enumerate() {
-            if i < 8 || th { emit_all::<te::Affine<P>, te::Projective<P>>(out, &cd, b, c); } else { emit_budget::<te::Affine<P>, te::Projective<P>>(out, &cd, b, c, i, 3); }
+        if th {
+            for b in core.iter() { emit_all::<te::Affine<P>, te::Projective<P>>(out, &cd, b, c); }
+            for (i, b) in bulk.iter().enumerate() { emit_budget::<te::Affine<P>, te::Projective<P>>(out, &cd, b, c, i, 4); }
+        } else {
+            for (i, b) in core.iter().enumerate() { emit_ship::<te::Affine<P>, te::Projective<P>>(out, &cd, b, c, i % 4 == 0); }
+            for (i, b) in bulk.iter().step_by(2).enumerate() { emit_ship::<te::Affine<P>, te::Projective<P>>(out, &cd, b, c, i % 16 == 0); }
         }
-        for (i, b) in bulk.iter().enumerate() { emit_budget::<te::Affine<P>, te::Projective<P>>(out, &cd, b, c, i, every); }
     }
 }
 
@@ -301,11 +321,12 @@ fn main() {
         toy_te_mal::<TE257A>(&mut out, &mut rng, "TE257A", 236, th, th);
     }
     if want("ship") {
-        ship_sw_mal::<bls12_381::g1::Config>(&mut out, &mut rng, if th { 10 } else { 2 }, th, "_", None);
-        ship_sw_mal::<secp256k1::Config>(&mut out, &mut rng, if th { 10 } else { 2 }, th, "_", None);
-        ship_sw_mal::<mnt4_753::g1::Config>(&mut out, &mut rng, if th { 4 } else { 1 }, th, "_", None);
-        ship_sw_mal::<bls12_381::g2::Config>(&mut out, &mut rng, if th { 8 } else { 2 }, th, &g2_tower(), Some(&g2_h1()));
-        ship_te_mal::<ed_on_bls12_381::EdwardsConfig>(&mut out, &mut rng, if th { 10 } else { 2 }, th);
+        ship_sw_mal::<bls12_381::g1::Config>(&mut out, &mut rng, if th { 10 } else { 2 }, th, "_", None, 12, 2);
+        ship_sw_mal::<secp256k1::Config>(&mut out, &mut rng, if th { 10 } else { 2 }, th, "_", None, 18, 2);
+        ship_sw_mal::<mnt4_753::g1::Config>(&mut out, &mut rng, if th { 4 } else { 1 }, th, "_", None, 3, 3);
+        ship_sw_mal::<bls12_381::g2::Config>(&mut out, &mut rng, if th { 8 } else { 2 }, th, &g2_tower(), Some(&g2_h1()), 9, 3);
+        ship_te_mal::<ed_on_bls12_381::EdwardsConfig>(&mut out, &mut rng, if th { 10 } else { 2 }, th, 12);
+        set_budget(i64::MAX);
     }
     out.flush();
     eprintln!("c10: {} lines", out.count);
